@@ -51,6 +51,14 @@ static TaskPlan gen_task(Rng &r, bool thorough, char force_dtype = 0) {
             t.ops.insert(t.ops.begin() + 1 + (size_t)ru.below(t.ops.size()), u);
         }
     }
+    { // a fifth of the column-stored matrices are created through a FILE*-based reader (Harwell-Boeing or Matrix Market text fed from
+      // memory), so that several readers run at the same time too; own stream again
+        uint64_t vb = 0; memcpy(&vb, &t.mats[0].re[0], sizeof vb);
+        Rng rr(mix3(0x0990, (uint64_t)t.mats[0].nnz() * 2654435761ULL + t.ops.size(), vb));
+        if (t.ops[0].kind == "new" && t.ops[0].storage == 0 && t.mats[0].m == t.mats[0].n && rr.chance(0.2)) {
+            t.ops[0].reader = rr.chance(0.5) ? "hb" : "mm"; t.ops[0].rfmt = (int)rr.below(32); t.ops[0].rbase0 = rr.chance(0.3) ? 1 : 0;
+        }
+    }
     Op d; d.kind = "destroy"; t.ops.push_back(d); Op d1; d1.kind = "destroy"; d1.slot = 1; t.ops.push_back(d1);
     return t;
 }
